@@ -12,7 +12,7 @@ import (
 func zzLabels(name string, n int) (tensor.Tensor, []float64) {
 	e := make([]float64, n)
 	for k := range e {
-		e[k] = vrt.Float(name, k)
+		e[k] = vrt.FloatN(name, k) // arbitrary label values, NaN included (a NaN equals nothing)
 	}
 	d := make([]float64, n)
 	copy(d, e)
@@ -49,7 +49,8 @@ func H_C19_step() {
 	matched := 0
 	for k := 0; k < n; k++ {
 		d := pe[k] - te[k]
-		vrt.Assume(vrt.Or(pe[k] == te[k], vrt.Or(d > 1e-200, d < -1e-200)))
+		nan := vrt.Or(vrt.IsNaN(pe[k]), vrt.IsNaN(te[k]))
+		vrt.Assume(vrt.Or(nan, vrt.Or(pe[k] == te[k], vrt.Or(d > 1e-200, d < -1e-200))))
 		if pe[k] == te[k] {
 			matched++
 		}
@@ -74,9 +75,10 @@ func H_C19_split() {
 	pe := make([]float64, n)
 	te := make([]float64, n)
 	for k := 0; k < n; k++ {
-		pe[k], te[k] = vrt.Float("p", k), vrt.Float("t", k)
+		pe[k], te[k] = vrt.FloatN("p", k), vrt.FloatN("t", k)
 		d := pe[k] - te[k]
-		vrt.Assume(vrt.Or(pe[k] == te[k], vrt.Or(d > 1e-200, d < -1e-200)))
+		nan := vrt.Or(vrt.IsNaN(pe[k]), vrt.IsNaN(te[k]))
+		vrt.Assume(vrt.Or(nan, vrt.Or(pe[k] == te[k], vrt.Or(d > 1e-200, d < -1e-200))))
 	}
 	mkT := func(e []float64) tensor.Tensor {
 		d := make([]float64, len(e))
